@@ -359,6 +359,21 @@ def lemma_rdiv(n, lo, hi, goal=True):
     return t
 
 
+def lemma_rdiv_mul(n, lo, hi, goal=True):
+    """Same statement as lemma_rdiv with the integer quotient e introduced by its defining inequalities
+    2n*e <= 2a+n < 2n*e + 2n (no bit-vector divider; cvc5 decides the whole range in one query)."""
+    t = _HDR + '(declare-const a (_ BitVec 64))\n(declare-const e (_ BitVec 64))\n'
+    t += f'(assert (bvuge a {_bv(lo)}))\n(assert (bvult a {_bv(hi)}))\n(assert (bvult e {_bv(1 << 40)}))\n'
+    t += f'(define-fun num () (_ BitVec 64) (bvadd (bvmul {_bv(2)} a) {_bv(n)}))\n'
+    t += f'(assert (bvule (bvmul {_bv(2 * n)} e) num))\n(assert (bvult num (bvadd (bvmul {_bv(2 * n)} e) {_bv(2 * n)})))\n'
+    t += f'(define-fun q () Float64 (fp.div RNE ({_F} RNE a) ({_F} RNE {_bv(n)})))\n'
+    t += f'(define-fun y () Float64 (fp.add RNE q ({_F} RNE 0.5)))\n'
+    t += '(define-fun r () (_ BitVec 64) ((_ fp.to_sbv 64) RTZ y))\n'
+    if goal:
+        t += '(assert (not (= r e)))\n'
+    return t
+
+
 def lemma_rint(bits, goal=True):
     """0 <= i < 2^bits: to_sbv_RTZ(fp.add(to_fp(i), 0.5)) == i."""
     t = _HDR + '(declare-const i (_ BitVec 64))\n'
@@ -444,17 +459,22 @@ def lemma_cdiv(divisors, bits, goal=True):
 
 
 def lemma_jobs(rule, lim, timeout_s=120):
-    """[(key, smt_text_goal, smt_text_twin, description)] covering exactly what the helper of `rule` admits."""
+    """[(key, goal, twin, description[, solver[, second]])] covering exactly what the helper of `rule` admits.
+    `solver` overrides the primary solver for that lemma; `second` = [(solver, text), ...] is an alternative
+    decision of the same statement (all texts must be unsat) used when a second opinion is requested."""
     jobs = []
     if rule == 'rdiv':
         for n in range(1, lim.rdiv_n_max + 1):
-            if n & (n - 1) == 0:
-                ranges = [(0, 1 << lim.rdiv_a_bits)]          # power-of-two divisor: one easy query
+            hi = 1 << lim.rdiv_a_bits
+            desc = 'Float64: int(a / n + 0.5) == (2a+n)//(2n)'
+            if n & (n - 1) == 0:                                  # power-of-two divisor: one easy query
+                jobs.append((f'rdiv n={n} a in [0,{hi})', lemma_rdiv(n, 0, hi), lemma_rdiv(n, 0, hi, False), desc))
             else:
+                # cvc5 decides the multiplication form over the whole range; z3 needs the divider form split by the
+                # binary exponent of a (second opinion)
                 ranges = [(0, 1 << 16)] + [(1 << k, 1 << (k + 1)) for k in range(16, lim.rdiv_a_bits)]
-            for lo, hi in ranges:
-                jobs.append((f'rdiv n={n} a in [{lo},{hi})', lemma_rdiv(n, lo, hi), lemma_rdiv(n, lo, hi, False),
-                             'Float64: int(a / n + 0.5) == (2a+n)//(2n)'))
+                jobs.append((f'rdiv n={n} a in [0,{hi})', lemma_rdiv_mul(n, 0, hi), lemma_rdiv_mul(n, 0, hi, False), desc,
+                             'cvc5', [('z3new', lemma_rdiv(n, lo, h)) for lo, h in ranges if lo < hi]))
     elif rule == 'rint':
         jobs.append((f'rint i < 2^{lim.rint_bits}', lemma_rint(lim.rint_bits), lemma_rint(lim.rint_bits, False),
                      'Float64: int(i + 0.5) == i for int i >= 0'))
@@ -497,38 +517,48 @@ def libm_log2_points():
 
 
 def prove(R, rules, lim, timeout_s=120, workers=8, solver='z3new', second=None):
-    """Decide the lemmas for `rules` (set of rule names actually applied).  Records one obligation per lemma
-    query on R; returns True iff every lemma is unsat and every twin sat.  `second`: also ask that solver and
-    require agreement (split => HarnessError)."""
+    """Decide the lemmas for `rules` (set of rule names actually applied).  Records one obligation per lemma on R;
+    returns True iff every lemma is unsat and every twin sat.  `second`: also ask that solver (or the lemma's own
+    alternative decision) and require agreement (sat vs unsat => HarnessError; a timeout of the second opinion is
+    recorded but does not block)."""
     jobs = []
     meta = {}
     for rule in sorted(rules):
-        for key, goal, twin, desc in lemma_jobs(rule, lim, timeout_s):
-            jobs.append((('g', key), goal, solver, timeout_s))
-            jobs.append((('t', key), twin, solver, timeout_s))
+        for job in lemma_jobs(rule, lim, timeout_s):
+            key, goal, twin, desc = job[:4]
+            prim = job[4] if len(job) > 4 and job[4] else solver
+            alts = []
             if second:
-                jobs.append((('s', key), goal, second, timeout_s))
-            meta[key] = desc
+                alts = job[5] if len(job) > 5 and job[5] else [(second if second != prim else 'z3new', goal)]
+            jobs.append((('g', key), goal, prim, timeout_s))
+            jobs.append((('t', key), twin, prim, timeout_s))
+            for i, (s2, text) in enumerate(alts):
+                jobs.append((('s', key, i), text, s2, timeout_s))
+            meta[key] = (desc, prim, alts)
     if not jobs:
         return True
     res = smt.solve_many(jobs, workers=workers)
     ok = True
-    for key, desc in meta.items():
+    for key, (desc, prim, alts) in meta.items():
         g = res[('g', key)]
         t = res[('t', key)]
         verdict = g[0]
-        if second:
-            s = res[('s', key)]
-            if {verdict, s[0]} == {'sat', 'unsat'}:
-                raise HarnessError(f'FP lemma {key}: solvers disagree ({solver}={verdict}, {second}={s[0]})')
-            if verdict != 'unsat' and s[0] == 'unsat':
-                verdict = 'unsat'
+        sec = None
+        if alts:
+            vs = [res[('s', key, i)][0] for i in range(len(alts))]
+            sec = 'sat' if 'sat' in vs else 'unsat' if all(v == 'unsat' for v in vs) else 'unknown'
+            if {verdict, sec} == {'sat', 'unsat'}:
+                raise HarnessError(f'FP lemma {key}: solvers disagree ({prim}={verdict}, {alts[0][0]}={sec})')
+            if verdict not in ('sat', 'unsat') and sec in ('sat', 'unsat'):
+                verdict = sec
         if verdict == 'sat':
             raise HarnessError(f'FP lemma {key} is FALSE (model {g[1]}): the cut rule is not justified on this range')
         reach = t[0] == 'sat'
         good = verdict == 'unsat' and reach
         ok = ok and good
-        R.ob(f'FP lemma {desc} [{key}]', 'discharged' if good else 'not_discharged', g[2],
-             {'solver': solver, 'verdict': g[0], 'twin': t[0], **({'second': res[('s', key)][0]} if second else {})},
-             nontrivial=reach)
+        detail = {'solver': prim, 'verdict': g[0], 'twin': t[0]}
+        if alts:
+            detail['second'] = {'solver': alts[0][0], 'queries': len(alts), 'verdict': sec,
+                                'secs': round(sum(res[('s', key, i)][2] for i in range(len(alts))), 1)}
+        R.ob(f'FP lemma {desc} [{key}]', 'discharged' if good else 'not_discharged', g[2], detail, nontrivial=reach)
     return ok
